@@ -1696,7 +1696,46 @@ pub fn idioms(rng: &mut Rng) -> String {
 // tail-call chains in the release dispatcher, large machine-code buffers, rel32 branches
 // across the whole program.
 
+/// Very long runs of one command (lengths around 2^7, 2^8, 2^15, 2^16), built up in one
+/// piece and taken down in several pieces separated by other bytes, then tested for zero.
+fn long_runs(rng: &mut Rng) -> String {
+    let lens = [127usize, 128, 129, 255, 256, 257, 32767, 32768, 32769, 65535, 65536, 65537, 40000, 100000];
+    let mut s = String::new();
+    for _ in 0..rng.urange(1, 3) {
+        let len = *rng.pick(&lens[..]);
+        if rng.chance(1, 4) {
+            // pointer runs: out and back, leaving marks
+            let (out, back) = if rng.coin() { ('>', '<') } else { ('<', '>') };
+            s.push_str("+.");
+            s.extend(std::iter::repeat(out).take(len));
+            s.push_str("++.");
+            s.extend(std::iter::repeat(back).take(len));
+            s.push_str("+.");
+            continue;
+        }
+        let (up, down) = if rng.coin() { ('+', '-') } else { ('-', '+') };
+        s.extend(std::iter::repeat(up).take(len));
+        if rng.coin() {
+            s.push('.');
+        }
+        let residue = *rng.pick(&[0usize, 0, 0, 1, 2]);
+        let mut remaining = len - residue.min(len);
+        while remaining > 0 {
+            let p = (*rng.pick(&[1usize, 100, 10_000, 32_767, 32_768, 65_536])).min(remaining);
+            s.extend(std::iter::repeat(down).take(p));
+            s.push_str(*rng.pick(&[" ", "><", "x", "\n", "<>"]));
+            remaining -= p;
+        }
+        // flag: anything left?
+        s.push_str("[>+<[-]]>.[-]<");
+    }
+    s
+}
+
 pub fn long_straight(rng: &mut Rng) -> String {
+    if rng.chance(1, 4) {
+        return long_runs(rng);
+    }
     let big = rng.chance(1, 4);
     let n = rng.urange(4_000, if big { 60_000 } else { 15_000 });
     let mut s = String::with_capacity(n * 3);
